@@ -296,6 +296,37 @@ theorem race_file_roundtrip (o : Dict) (hshape : o.map Prod.fst = RallyGen.Stats
   have h : readBack RallyGen.StatsKeys.table (some o) = o := gsInit_roundtrip generated_key_table_good hshape
   exact ⟨h, fun k => by rw [h], rfl⟩
 
+/-! ## 7b. per-task lookup after the read-back (`GlobalStats(race.results).tasks()` / `.metrics(task)`, as compare does) -/
+
+/-- **lookup_after_roundtrip**: for every schedule with pairwise distinct task names, every record list and every
+    `GlobalStats` dict `o` whose `op_metrics` are the records the calculator produced: after the race-file round
+    trip, `metrics(t)` for a scheduled task `t` returns exactly the record computed for `t` by its own loop
+    iteration `taskE` (so: the statistics of `t`'s own samples — never the record of another task that shares
+    the operation or whose operation is called like `t`), `None` iff `t` is not reported, and `tasks()` lists the
+    reported task names in schedule order -/
+theorem lookup_after_roundtrip (tbl : PTable) (recs : List Rec) (sched : List Task) (r : List OpMetrics)
+    (hnd : (sched.map Task.name).Nodup) (h : calcE tbl recs sched = .ok r)
+    (o : Dict) (hshape : o.map Prod.fst = RallyGen.StatsKeys.table.map KeySpec.attr)
+    (hop : dictGet o sOpMetrics = some (.arr ((r.map opToDict).map JVal.obj))) :
+    gsOpMetrics (readBack RallyGen.StatsKeys.table (some o)) = some (r.map opToDict) ∧
+    tasksE (r.map opToDict) = .ok (r.map (fun m => JVal.str m.task)) ∧
+    ∀ t ∈ sched, ∀ om, taskE tbl recs t = .ok om → metricsE (r.map opToDict) t.name = .ok (om.map opToDict) := by
+  refine ⟨?_, tasksE_calc r, fun t ht om hom => metricsE_calc hnd h ht hom⟩
+  rw [(race_file_roundtrip o hshape).1]
+  unfold gsOpMetrics
+  rw [hop]
+  exact recsOfJ_map _
+
+/-- for *any* record list (also hand-written / pre-0.8.0 race files): `metrics(task)` only ever returns a member
+    whose task — or, for a record without a `task` key, operation — is the requested name -/
+theorem lookup_returns_requested_task (rs : List Dict) (t : Str) (r : Dict) (h : metricsE rs t = .ok (some r)) :
+    r ∈ rs ∧ ∃ k, recKeyE r = .ok k ∧ jIsStr k t = true := metricsE_key h
+
+/-- … and when those names are pairwise distinct every record is found under its own name -/
+theorem lookup_unique (rs : List Dict) (ks : List Str)
+    (hk : List.Forall₂ (fun r k => recKeyE r = .ok (.str k)) rs ks) (hnd : ks.Nodup) (r : Dict) (k : Str)
+    (hmem : (r, k) ∈ rs.zip ks) : metricsE rs k = .ok (some r) := metricsE_unique hk hnd hmem
+
 /-! ## 8. throughput summary -/
 
 /-- **summary_agrees_with_raw**: whenever normal samples exist, `summary_stats` reports min / mean / median / max
@@ -367,6 +398,14 @@ example : (exRecs.filter isNormal).length = 2 ∧ (exRecs.filter (errSel ['t'] (
 example : (pctsFor RallyGen.Percentiles.table 1000).toOption.map (·.map Prod.snd) =
     some [['5', '0', '_', '0'], ['9', '0', '_', '0'], ['9', '9', '_', '0'], ['9', '9', '_', '9'], ['1', '0', '0', '_', '0']] := by
   decide +kernel
+/-- two tasks share the operation `term`; the explicitly named one comes first, the other keeps the default name -/
+example :
+    let r1 : Dict := [(sTask, .str ['w']), (sOperation, .str ['t', 'e', 'r', 'm']), (sErrorRate, .flt 1)]
+    let r2 : Dict := [(sTask, .str ['t', 'e', 'r', 'm']), (sOperation, .str ['t', 'e', 'r', 'm']), (sErrorRate, .flt 0)]
+    ((metricsE [r1, r2] ['t', 'e', 'r', 'm']).toOption.map (·.map (·.length))) = some (some 3) ∧
+    (match metricsE [r1, r2] ['t', 'e', 'r', 'm'] with
+      | .ok (some r) => (match dictGet r sErrorRate with | some (.flt q) => q == 0 | _ => false)
+      | _ => false) = true := by decide +kernel
 example : (gsInit RallyGen.StatsKeys.table none).map Prod.fst = RallyGen.StatsKeys.table.map KeySpec.attr := by
   simp [gsInit]
 
